@@ -93,6 +93,40 @@ def _inline_once(prog, fd, is_helper):
             else:
                 nb["t"] = _shift(gt, off, boff)
             fd["blocks"].append(nb)
+        # jump threading: a helper that returns a constant boolean on a path, into a caller that branches on the result
+        # right away - keep the path and the branch together, or path rules see infeasible combinations
+        cb = fd["blocks"][cont]
+        ct = cb["t"]
+        dpl = list(dest)
+        if not cb["s"] and ct["k"] == "switch" and isinstance(ct.get("discr"), dict) and (ct["discr"].get("m") == dpl or ct["discr"].get("c") == dpl):
+            def target_for(val):
+                for v, x in ct["targets"]:
+                    if int(v) == val:
+                        return x
+                return ct.get("otherwise")
+            ret_blocks = {boff + i for i, gb in enumerate(gd["blocks"]) if gb["t"]["k"] == "return" and all(x.get("k") == "dead" for x in gb["s"])}
+            # blocks that only end storage and fall through to the return count as the return
+            grew = True
+            while grew:
+                grew = False
+                for i, gb in enumerate(gd["blocks"]):
+                    if boff + i not in ret_blocks and gb["t"]["k"] == "goto" and gb["t"]["target"] + boff in ret_blocks and all(x.get("k") == "dead" for x in gb["s"]):
+                        ret_blocks.add(boff + i)
+                        grew = True
+            for i in range(len(gd["blocks"])):
+                nb = fd["blocks"][boff + i]
+                if boff + i in ret_blocks:
+                    continue
+                if nb["t"]["k"] == "goto" and nb["t"]["target"] in ret_blocks and nb["s"]:
+                    real = [x for x in nb["s"] if x.get("k") != "dead"]
+                    lastst = real[-1] if real else {}
+                    k = (lastst.get("rv") or {}).get("op", {}).get("k") if lastst.get("k") == "assign" and lastst.get("lhs") == [off] and lastst["rv"]["k"] == "use" else None
+                    if k and str(k.get("txt")) in ("true", "false"):
+                        val = 1 if k["txt"] == "true" else 0
+                        tgt = target_for(val)
+                        if tgt is not None:
+                            nb["s"].append({"k": "assign", "lhs": dpl, "rv": {"k": "use", "op": {"k": k}}, "ln": t.get("ln", 0), "cl": t.get("cl", t.get("ln", 0)), "exp": False})
+                            nb["t"] = {"k": "goto", "target": tgt}
         # bind the parameters, jump into the helper
         for i, a in enumerate(t["args"]):
             b["s"].append({"k": "assign", "lhs": [off + 1 + i], "rv": {"k": "use", "op": a}, "ln": t.get("ln", 0), "cl": t.get("cl", t.get("ln", 0)), "exp": False})
